@@ -990,6 +990,11 @@ class SyncObj(object):
                 if not self.__serializer.setTransmissionData(serialized):
                     # Partial snapshot: nothing of the local log was verified against the leader yet
                     return
+                if message.get('snapshot_version', 0) > self.__selfCodeVersion:
+                    # Taken after a switch to a code version this node lacks (see __loadDumpFile); decided before
+                    # the snapshot is read: a user-supplied deserializer restores the object as it reads
+                    logger.error('snapshot needs code version %d, self version: %d' % (message['snapshot_version'], self.__selfCodeVersion))
+                    return
                 matchIdx = None
                 if message.get('snapshot_last') is not None:
                     # Decided before the snapshot is read: a user-supplied deserializer restores the object as it reads
@@ -1296,6 +1301,7 @@ class SyncObj(object):
                         'commit_index': self.__raftCommitIndex,
                         'serialized': transmissionData,
                         'snapshot_last': (self.__raftLog[1][1], self.__raftLog[1][2]) if len(self.__raftLog) > 1 else None,
+                        'snapshot_version': self.__enabledCodeVersion,
                     }
                     self.__transport.send(node, message)
                     if node not in self.__connectedNodes:
